@@ -24,7 +24,7 @@ PLACEMENTS = [
     "deep_array_anyof_not", "el_properties", "el_patternProperties", "el_additionalProperties",
     "el_propertyNames", "el_dependencies", "el_items", "el_contains",
 ]
-REQUIRED_COUNTERS = ["acyclic.ordered", "cyclic.refused", "multi_root", "graphs.with_decoy_property_names"] + [f"edge.{p}" for p in PLACEMENTS]
+REQUIRED_COUNTERS = ["acyclic.ordered", "cyclic.refused", "multi_root", "graphs.with_decoy_property_names", "twice_reachable_graphs"] + [f"edge.{p}" for p in PLACEMENTS]
 EXHAUSTIVE_SUBSPACES = {
     "quick": ["all 2^9 digraphs on 3 named classes incl. self-loops", "all 2^12 loop-free digraphs on 4 classes",
               "all digraphs on 1 and 2 classes"],
@@ -40,6 +40,14 @@ ANCHORS = [
 ]
 
 
+WRAPPERS = {
+    "array": lambda E, c: E.Array(c), "anyof_str": lambda E, c: E.AnyOf(E.String(), c),
+    "elem_prop": lambda E, c: E.Element(properties={"p": E.Property(c)}), "not": lambda E, c: E.Not(c),
+    # the class twice below one entry point
+    "items_and_contains": lambda E, c: E.Element(items=c, contains=c), "anyof_twice": lambda E, c: E.AnyOf(c, c),
+    "tuple_twice": lambda E, c: E.Array([c, c]),
+    "props_twice": lambda E, c: E.Element(properties={"p": E.Property(c), "q": E.Property(c)}),
+}
 DECOY_NAMES = ["properties", "additionalProperties", "patternProperties", "propertyNames", "dependencies", "items",
                "additionalItems", "contains", "elements", "element", "default", "required"]
 
@@ -169,13 +177,13 @@ def run_graph(ctx, sut, count, edges, placements, roots, tag, root_wrapper=None)
     root_elements = []
     for root in roots:
         if root_wrapper and root_wrapper[0] == root:
-            root_elements.append(root_wrapper[1](classes[root]))
+            root_elements.append(WRAPPERS[root_wrapper[1]](sut, classes[root]))
         else:
             root_elements.append(classes[root])
     seen, adj = reachable(edges, roots, count)
     cyclic = has_cycle(adj, seen)
     case = {"classes": count, "edges": [list(e) for e in edges], "placements": list(placements),
-            "roots": list(roots), "tag": tag}
+            "roots": list(roots), "tag": tag, "root_wrapper": list(root_wrapper) if root_wrapper else None}
     ctx.evaluation()
     if count >= 2 and edges:
         ctx.nontrivial(repr((count, edges, placements, roots, bool(root_wrapper))))
@@ -286,14 +294,23 @@ def random_graphs(ctx, sut):
         roots = [0] if rng.random() < 0.6 else rng.sample(range(count), k=rng.randint(1, min(count, 4)))
         wrapper = None
         if rng.random() < 0.25:
-            pick = rng.choice(roots)
-            make = rng.choice([
-                lambda c: sut.Array(c), lambda c: sut.AnyOf(sut.String(), c),
-                lambda c: sut.Element(properties={"p": sut.Property(c)}), lambda c: sut.Not(c),
-            ])
-            wrapper = (pick, make)
+            wrapper = (rng.choice(roots), rng.choice(sorted(WRAPPERS)))
             ctx.count("root_is_non_object_element")
+        if rng.random() < 0.1:
+            roots = roots + [rng.choice(roots)]     # the same entry point handed in twice
         run_graph(ctx, sut, count, edges, placements, roots, "random", wrapper)
+    # classes reachable along two paths although nothing depends on anything ("nothing to sort")
+    serial = 0
+    for count in (1, 2, 3):
+        for edges in ([], [(0, count - 1)] if count > 1 else []):
+            for roots in ([0, 0], list(range(count)) + [0], [0]):
+                for name in [None] + sorted(WRAPPERS):
+                    serial += 1
+                    if serial % ctx.nshards != ctx.shard:
+                        continue
+                    ctx.count("twice_reachable_graphs")
+                    run_graph(ctx, sut, count, list(edges), ["properties"] * len(edges), list(roots), "twice",
+                              (0, name) if name else None)
 
 
 def run_shard(ctx):
@@ -306,5 +323,6 @@ def run_shard(ctx):
 def replay(case, ctx):
     from vlib import sut  # pylint: disable=import-outside-toplevel
 
+    wrapper = tuple(case["root_wrapper"]) if case.get("root_wrapper") else None
     run_graph(ctx, sut, case["classes"], [tuple(e) for e in case["edges"]], case["placements"],
-              case["roots"], "replay")
+              case["roots"], "replay", wrapper)
